@@ -207,3 +207,38 @@ func (h *H) Symbolic() bool { return false }
 // Thorough reports the tier (bounds are chosen by the harness from it).
 func (h *H) Thorough() bool { return os.Getenv("VERIF_TIER") == "thorough" }
 
+
+// Branch-free helpers: under the engine these build if-then-else terms instead of
+// forking the path (a Go `if`, `&&` or `||` on symbolic data forks).
+func (h *H) B2I(b bool) int {
+	if b {
+		return 1
+	}
+	return 0
+}
+func (h *H) Both(a, b bool) bool   { return a && b }
+func (h *H) Either(a, b bool) bool { return a || b }
+func (h *H) Implies(a, b bool) bool { return !a || b }
+func (h *H) PickU64(c bool, a, b uint64) uint64 {
+	if c {
+		return a
+	}
+	return b
+}
+func (h *H) PickInt(c bool, a, b int) int {
+	if c {
+		return a
+	}
+	return b
+}
+
+// PickBytes returns a when c, else b (same length required).
+func (h *H) PickBytes(c bool, a, b []byte) []byte {
+	if len(a) != len(b) {
+		h.tb.Fatalf("vrt: PickBytes length mismatch")
+	}
+	if c {
+		return a
+	}
+	return b
+}
